@@ -26,7 +26,7 @@ D, M_ = 1, 5
 
 def cases(tier, seed):
     rnd = random.Random(15000 + seed)
-    reps = 1 if tier == "quick" else 8
+    reps = 1 if tier == "quick" else 40
     for _ in range(reps):
         for obj, strat, lik, beta, priors, comb in itertools.product(["VariationalELBO", "PredictiveLogLikelihood"], ["VariationalStrategy", "UnwhitenedVariationalStrategy"], ["gauss", "bernoulli", "laplace"],
                                                                    [0.1, 1.0, 3.0], [False, True], [True, False]):
